@@ -1190,6 +1190,8 @@ class Interp:
                     nb.items = None
                     fr.env[t.value.id] = nb
                 return
+            if base.tag("module_const"):
+                self.emit("global_mutation", node, name=base.tag("module_const"), how="item store")
             if base.tag("bound_array_method"):
                 self.emit("method_as_value", node, method=base.tag("bound_array_method"), recv=base.tag("recv"),
                           how="subscript-store")
@@ -1234,6 +1236,8 @@ class Interp:
 
     def store_dict(self, t, base, idx, v, node):
         fr = self.fr
+        if base.tag("module_const"):
+            self.emit("global_mutation", node, name=base.tag("module_const"), how="item store")
         nb = base.copy()
         kw = dict(nb.tag("kw") or {})
         if idx.known and isinstance(idx.const, str) and nb.tag("kw") is not None:
